@@ -450,6 +450,10 @@ def gen_world(rnd, valid_only=None):
         if p not in reachable and not Model.inside(p, OUT) and not Model.inside(p, OUT2) \
                 and rnd.random() < 0.5:
             files[p]["garbage"] = True
+    # the entry file may be named on the command line in any spelling that means main.capy
+    # (drawn last, so that the rest of the world is what it was before this dimension existed)
+    spec["entry_spelling"] = rnd.choice(["plain", "plain", "plain", "dot", "dot", "dslash", "up_down",
+                                         "abs", "through_dir"])
     return spec
 
 
@@ -472,7 +476,17 @@ def run_world(bx, spec, world, want_run=True, keep_tree=False):
     mod_dir = {"abs": bx.mods, "rel": "../" + MODS, "rel_slash": "../" + MODS + "/",
                "dot_rel": "./../" + MODS, "abs_slash": bx.mods + "/",
                "through_cwd": os.path.join(bx.proj, "..", MODS)}[sp]
-    res = bx.compile(["build", "main.capy", "--mod-dir", mod_dir], world, trace=True, timeout=20)
+    es = spec.get("entry_spelling", "plain")
+    first_dir = next((d.split("/", 1)[1] for d in spec.get("dirs", [])
+                      if d.startswith(CWD + "/") and "/" not in d.split("/", 1)[1]
+                      and not d.endswith(".capy")), None)
+    if es == "through_dir" and first_dir is None:
+        es = "dot"
+    entry = {"plain": "main.capy", "dot": "./main.capy", "dslash": ".//main.capy",
+             "up_down": "../%s/main.capy" % os.path.basename(bx.proj),
+             "abs": os.path.join(bx.proj, "main.capy"),
+             "through_dir": "%s/../main.capy" % first_dir}[es]
+    res = bx.compile(["build", entry, "--mod-dir", mod_dir], world, trace=True, timeout=20)
     out = res.stdout.decode(errors="replace")
     diags = [(m.group(1), m.group(2), int(m.group(3))) for m in DIAG_RE.finditer(out)]
     loose_errors = [l for l in out.splitlines() if l.startswith("error")]
